@@ -253,8 +253,38 @@ func permutedKeyTuples(keys []string, docs ...val.V) bool {
 
 func init() { Register("C01", "random", checkC01); Register("C01", "exhaustive", checkC01) }
 
+// hugeRunPair: more than 2^20 LCS cells, a is the shorter side and holds a
+// run of equal elements that is longer in b.
+func hugeRunPair(t *rapid.T) PairCase {
+	n := gen.Int(t, "n", 1000, 1060)
+	a := make([]val.V, 0, n)
+	for i := 0; i < n; i++ {
+		a = append(a, float64(i%40))
+	}
+	at := gen.Int(t, "runAt", 100, n-100)
+	elem := gen.Pick(t, "runElem", []val.V{0.0, "", map[string]val.V{"k": 1.0}})
+	run := gen.Int(t, "run", 2, 30)
+	withRun := func(extra int) []val.V {
+		out := append([]val.V{}, a[:at]...)
+		for i := 0; i < run+extra; i++ {
+			out = append(out, val.Clone(elem))
+		}
+		return append(out, a[at:]...)
+	}
+	av := withRun(0)
+	bv := withRun(gen.Int(t, "grow", 1, 60))
+	if gen.Chance(t, "headTail", 50) {
+		bv = append([]val.V{"h"}, bv...)
+		bv = append(bv, "t")
+	}
+	return PairCase{A: val.JSON(av), B: val.JSON(bv), Opts: "list"}
+}
+
 func TestC01Random(t *testing.T) {
 	RunRandom(t, "C01", "random", func(t *rapid.T) PairCase {
+		if gen.Chance(t, "hugeRun", 1) && gen.Chance(t, "hugeRun2", 30) {
+			return hugeRunPair(t)
+		}
 		return genPairCase(t, c01OptSets, func(p *gen.Profile) {
 			if gen.Int(t, "deep", 0, 9) == 0 {
 				p.MaxDepth = 4
